@@ -32,7 +32,7 @@ ASSUMPTIONS = [
 ]
 
 KINDS = ["p2pkh", "p2wpkh", "p2sh-p2wpkh", "p2sh", "p2wsh", "p2sh-p2wsh"]
-BAD_SIG_CLASSES = ["sig-bitflip", "foreign-key-sig", "mis-keyed-sig", "sig-for-other-tx", "sig-hashtype-changed", "sig-hashtype-changed-with-declared-type"]
+BAD_SIG_CLASSES = ["sig-bitflip", "foreign-key-sig", "mis-keyed-sig", "sig-for-other-tx", "sig-hashtype-changed", "sig-hashtype-changed-with-declared-type", "sig-bitflip-scripts-stripped"]
 
 GATES = {
     "contracts-ran": ["PSBT.serialize", "PSBT.combine", "PSBTIn.finalize", "PSBT.final_tx"],
@@ -249,6 +249,36 @@ def both_utxo_forms(ctx, wallet, sc, base):
     ctx.case((raw, "both-forms"))
 
 
+def odd_field_shapes(ctx, rng, wallet, base):
+    """Records in shapes other software may write: whatever PSBT.parse accepts must serialise, and serialise stably."""
+    from props.psbtlib import reparse
+
+    m = rp.decode(base)
+    variants = []
+    for name, val in (("sighash-1-byte", b"\x01"), ("sighash-4-bytes", (1).to_bytes(4, "little")), ("sighash-5-bytes>=2^32", b"\x01\x00\x00\x00\x01"),
+                      ("sighash-8-bytes", (1).to_bytes(8, "little")), ("sighash-6-bytes>=2^32", b"\x01\x00\x00\x00\x00\x02")):
+        ins = [[e for e in imap if e[0] != b"\x03"] + [(b"\x03", val)] for imap in m["ins"]]
+        variants.append((name, rp.encode({"global": m["global"], "ins": ins, "outs": m["outs"]})))
+    # scripts and derivations present, the UTXO record not (yet): an updater that adds scripts first
+    variants.append(("no-utxo-record-yet", rp.encode({"global": m["global"], "ins": [[e for e in imap if e[0] not in (b"\x00", b"\x01")] for imap in m["ins"]], "outs": m["outs"]})))
+    for name, raw in variants:
+        ctx.count("shape:" + name.split(">")[0])
+        ctx.monitor("psbt-roundtrip")
+        case = {"op": "psbt-bytes", "raw": raw, "network": wallet.network, "stage": "odd-shape:" + name}
+        o = outcome(reparse, raw, wallet.network)
+        if o[0] == "exc":
+            ctx.count("observed:odd-shape-refused-at-parse:" + name)
+            continue
+        o1 = outcome(o[1].serialize)
+        if o1[0] == "exc":
+            ctx.violation("parsed-psbt-does-not-serialise:" + name, o1[1], case)
+            continue
+        o2 = outcome(lambda: reparse(o1[1], wallet.network).serialize())
+        if o2[0] == "exc" or o2[1] != o1[1]:
+            ctx.violation("psbt-roundtrip-bytes-differ:" + name, f"second pass: {o2[1] if o2[0] == 'exc' else 'bytes differ'}", case)
+        ctx.case((raw, "odd-shape"))
+
+
 def run_history(ctx, wallet, base, signer_cache, desc):
     """desc = (shape, order tuple).  Returns combined PSBT bytes."""
     shape, order = desc
@@ -362,6 +392,7 @@ def one_wallet(ctx, rng, kind, m, n, network, n_in, segwit_flag, quick):
     base = ob[1]
     check_roundtrip(ctx, base, wallet, "created")
     both_utxo_forms(ctx, wallet, sc, base)
+    odd_field_shapes(ctx, rng, wallet, base)
     cache = {}
     results = {}
     for S, hs in histories_for(rng, n, quick, m).items():
@@ -482,6 +513,13 @@ def bad_partial_sigs(ctx, rng, wallet, sc, base, cache):
             # the input declares PSBT_IN_SIGHASH_TYPE = ALL, the signature's own trailing byte says otherwise
             val2 = val[:-1] + bytes([rng.choice([2, 3, 0x81])])
             mm["ins"][k] = [e for e in mm["ins"][k] if e[0] != b"\x03"] + [(b"\x03", (1).to_bytes(4, "little"))]
+            j = [n_ for n_, e in enumerate(mm["ins"][k]) if e[0] == key][0]
+        elif cls == "sig-bitflip-scripts-stripped":
+            # the same junk signature on a copy whose redeem / witness script records are gone (a slimmed PSBT): the UTXO
+            # alone has to be enough to see that the signature is not one
+            rs = ec.der_parse_strict(val[:-1])
+            val2 = ec.der(rs[0], rs[1] ^ (1 << rng.randrange(200))) + b"\x01"
+            mm["ins"][k] = [e for e in mm["ins"][k] if e[0] not in (b"\x04", b"\x05")]
             j = [n_ for n_, e in enumerate(mm["ins"][k]) if e[0] == key][0]
         else:  # sig-hashtype-changed
             val2 = val[:-1] + bytes([rng.choice([2, 3, 0x81])])
